@@ -6,7 +6,7 @@
 
 package log
 
-//@ unit logger_handler frames=on props=C20,C12 filter=`log\.Logger\)\.ServeHTTP$`
+//@ unit logger_handler frames=on props=C20,C12 filter=`log\.Logger\)\.(ServeHTTP|serveNext)$`
 //@ extern (github.com/tmpim/casket/caskethttp/httpserver.Logger).MaskIP
 //@   pure
 //@ ghost lines int
@@ -18,6 +18,8 @@ package log
 //@   may_panic
 //@   ensures [only_this_requests_url] unchanged_except("URL.Path", arg1.URL) && unchanged_except("URL.RawPath", arg1.URL) && unchanged_except("URL.RawQuery", arg1.URL)
 //@   ensures nextCalls == old(nextCalls) + 1
+//@   ensures_on_panic nextCalls == old(nextCalls) + 1
+//@   ensures_on_panic unchanged_except("URL.Path", arg1.URL) && unchanged_except("URL.RawPath", arg1.URL) && unchanged_except("URL.RawQuery", arg1.URL)
 //@ extern (github.com/tmpim/casket/caskethttp/httpserver.Path).Matches
 //@   pure
 //@ extern github.com/tmpim/casket/caskethttp/httpserver.NewResponseRecorder
@@ -40,10 +42,24 @@ package log
 
 //@ define hit(k int) bool = httpserver.Path(old(r.URL.Path)).Matches(l.Rules[k].PathScope)
 
+//@ // C20 "including for error responses the server generates itself": a panic below the log handler (one that no errors
+//@ // middleware in between recovered) is answered HERE - serveNext turns it into a 500 that goes out through the recorder -
+//@ // so the request gets its log line like any other; the handler itself does not leave by panic any more (finding F22,
+//@ // repaired: it used to propagate to the server's recover wrapper, which answers 500 without a log line)
+//@ ghost panicked int
+//@ extern log.Printf
+//@ func (Logger).serveNext
+//@   requires l.Next != nil && panicked == 0
+//@   modifies ghost:nextCalls, URL.Path, URL.RawPath, URL.RawQuery
+//@   ensures [next_once] nextCalls == old(nextCalls) + 1
+//@   ensures [only_this_requests_url] unchanged_except("URL.Path", r.URL) && unchanged_except("URL.RawPath", r.URL) && unchanged_except("URL.RawQuery", r.URL)
+//@   ensures [a_panic_below_is_answered_as_500] panicked == 1 ==> (status == 500 && err == nil)
 //@ func (Logger).ServeHTTP
+//@   // only a request outside every rule's path scope is handed on directly (no recorder, no line: out of scope by
+//@   // configuration); a panic there still leaves through this handler - with no line owed
 //@   may_panic
-//@   ensures_on_panic [line_on_panic] forall(k, 0, len(l.Rules), (hit(k) && forall(j, 0, k, !hit(j))) ==> lines == old(lines) + cnt(l.Rules[k], old(r.URL.Path), len(l.Rules[k].Entries)))
-//@   requires r != nil && r.URL != nil && l.Next != nil
+//@   ensures_on_panic [no_line_owed_when_leaving_by_panic] forall(k, 0, len(l.Rules), !hit(k)) && lines == old(lines)
+//@   requires r != nil && r.URL != nil && l.Next != nil && panicked == 0
 //@   requires forall(k, 0, len(l.Rules), l.Rules[k] != nil && forall(j, 0, len(l.Rules[k].Entries), l.Rules[k].Entries[j] != nil && l.Rules[k].Entries[j].Log != nil))
 //@   modifies ghost:lines, ghost:nextCalls, ghost:errWrites, Request.URL, ResponseRecorder.Replacer, URL.Path, URL.RawPath, URL.RawQuery
 //@   ensures [next_once] nextCalls == old(nextCalls) + 1
